@@ -295,6 +295,11 @@ theorem strictOk_iff (t : List Entry) :
       · simp [hf]
     · rfl
 
+theorem exitsOk_iff (t : List Entry) (exits : List (String × Lock × Nat × Bool)) (wrappers : List (String × Lock)) :
+    exitsOk t exits wrappers = true ↔
+      (∀ x ∈ exits, (x.1, x.2.1) ∈ wrappers) ∧ (∀ w ∈ wrappers, wrapperOk t w = true) := by
+  simp [exitsOk, List.all_eq_true]
+
 theorem blockingOk_iff (t : List Entry) :
     blockingOk t = true ↔ ∀ en ∈ t, ∀ e ∈ en.events, (e.kind = Kind.join ∨ e.kind = Kind.wait) → effMay en e = [] := by
   simp only [blockingOk, List.all_eq_true]
